@@ -119,6 +119,113 @@ theorem add_ok (b : DispatcherBuilder) (tag : SysTag) (name : String) (dep : Lis
       · exact hne h
       · rw [h] at hl; cases hl
 
+/-! ### the builder's own queries say what `add` will do -/
+
+/-- **C18 (`has_system` / `contains` predict the rejections).** `add` is rejected exactly when
+`has_system` is false for one of the dependencies, or — all of them known — true for the
+non-empty name itself. -/
+theorem C18_queries_predict_add (b : DispatcherBuilder) (tag : SysTag) (name : String) (dep : List String)
+    (d : Decl) :
+    (b.add tag name dep d).2 ≠ none ↔
+      (∃ x, x ∈ dep ∧ b.hasSystem x = false) ∨ (name ≠ "" ∧ b.hasSystem name = true) := by
+  constructor
+  · intro h
+    cases hp : (b.add tag name dep d).2 with
+    | none => exact absurd hp h
+    | some p =>
+      rcases (add_panics_iff b tag name dep d p).mp hp with ⟨x, _, hx⟩ | ⟨_, _, hne, hl⟩
+      · obtain ⟨pre, post, heq, hnone, _⟩ := (resolve_error_iff _ _ _).mp hx
+        exact Or.inl ⟨x, by rw [heq]; simp, by simp [hasSystem, hnone]⟩
+      · exact Or.inr ⟨hne, hl⟩
+  · intro h hn
+    rcases h with ⟨x, hx, hf⟩ | ⟨hne, ht⟩
+    · -- some dependency is unknown: `resolve` fails
+      cases hr : resolve b.map dep with
+      | error y =>
+        have : (b.add tag name dep d).2 = some (.unknownDep y) :=
+          (add_panics_iff b tag name dep d _).mpr (Or.inl ⟨y, rfl, hr⟩)
+        rw [hn] at this; cases this
+      | ok ids =>
+        -- impossible: every name of `dep` is known when `resolve` succeeds
+        have hall : ∀ (l : List String) (ids : List SysId), resolve b.map l = .ok ids → ∀ y, y ∈ l → (lookup b.map y).isSome := by
+          intro l
+          induction l with
+          | nil => intro _ _ y hy; cases hy
+          | cons a l ih =>
+            intro ids hres y hy
+            simp only [resolve] at hres
+            cases ha : lookup b.map a with
+            | none => rw [ha] at hres; cases hres
+            | some ia =>
+              rw [ha] at hres
+              simp only [] at hres
+              cases hl : resolve b.map l with
+              | error e => rw [hl] at hres; cases hres
+              | ok ids' =>
+                rcases List.mem_cons.mp hy with rfl | hy'
+                · simp [ha]
+                · exact ih ids' hl y hy'
+        have := hall dep ids hr x hx
+        simp [hasSystem] at hf
+        rw [hf] at this; cases this
+    · cases hr : resolve b.map dep with
+      | error y =>
+        have : (b.add tag name dep d).2 = some (.unknownDep y) :=
+          (add_panics_iff b tag name dep d _).mpr (Or.inl ⟨y, rfl, hr⟩)
+        rw [hn] at this; cases this
+      | ok ids =>
+        have : (b.add tag name dep d).2 = some (.duplicateName name) :=
+          (add_panics_iff b tag name dep d _).mpr (Or.inr ⟨rfl, ⟨ids, hr⟩, hne, ht⟩)
+        rw [hn] at this; cases this
+
+/-- `has_system name` becomes true by an accepted `add` under that non-empty name, and no other way -/
+theorem C18_has_system_after_add (b : DispatcherBuilder) (tag : SysTag) (name : String) (dep : List String)
+    (d : Decl) (q : String) :
+    (b.add tag name dep d).1.hasSystem q =
+      (b.hasSystem q || ((b.add tag name dep d).2 == none && name != "" && q == name)) := by
+  unfold add hasSystem
+  simp only []
+  cases resolve b.map dep with
+  | error x => simp
+  | ok ids =>
+    simp only []
+    by_cases hn : name = ""
+    · subst hn; simp
+    · simp only [ne_eq, hn, not_false_eq_true, if_true]
+      by_cases hl : (lookup b.map name).isSome = true
+      · simp [hl]
+      · simp only [hl]
+        have hnone : lookup b.map name = none := by
+          cases h : lookup b.map name with
+          | none => rfl
+          | some v => simp [h] at hl
+        by_cases hq : q = name
+        · subst hq; simp [lookup]; exact Or.inr hn
+        · have : (name == q) = false := by simpa using fun h => hq h.symm
+          simp [lookup, this, hq, hn]
+
+/-- `num_systems` counts the accepted registrations under a non-empty name; `is_empty` says it is 0 -/
+theorem C18_num_systems_after_add (b : DispatcherBuilder) (tag : SysTag) (name : String) (dep : List String)
+    (d : Decl) :
+    (b.add tag name dep d).1.numSystems =
+      b.numSystems + (if (b.add tag name dep d).2 = none ∧ name ≠ "" then 1 else 0) := by
+  unfold add numSystems
+  simp only []
+  cases resolve b.map dep with
+  | error x => simp
+  | ok ids =>
+    simp only []
+    by_cases hn : name = ""
+    · subst hn; simp
+    · simp only [ne_eq, hn, not_false_eq_true, if_true]
+      by_cases hl : (lookup b.map name).isSome = true
+      · simp [hl]
+      · simp [hl]
+
+theorem C18_is_empty_iff (b : DispatcherBuilder) : b.isEmpty = true ↔ b.numSystems = 0 := by
+  unfold isEmpty numSystems
+  cases b.map <;> simp
+
 end DispatcherBuilder
 end Shred
 
@@ -221,3 +328,7 @@ end Shred
 #print axioms Shred.Scenario.C18_target_in_bounds
 #print axioms Shred.C18_every_builder_is_a_scenario
 #print axioms Shred.C18_group_capacity_any_builder
+#print axioms Shred.DispatcherBuilder.C18_queries_predict_add
+#print axioms Shred.DispatcherBuilder.C18_has_system_after_add
+#print axioms Shred.DispatcherBuilder.C18_num_systems_after_add
+#print axioms Shred.DispatcherBuilder.C18_is_empty_iff
